@@ -4,6 +4,7 @@ import (
 	"bufio"
 	"encoding/json"
 	"fmt"
+	"log"
 	"net/url"
 	"os"
 	"os/exec"
@@ -29,6 +30,7 @@ type Outcome struct {
 	Obs        string         // terminal observation (for counting distinct outcomes)
 	Stats      map[string]int // exercised fault kinds etc.
 	Detail     string         // free-form log printed by --replay
+	Key        string         // canonical state key (explicit-state search only)
 }
 
 func (o *Outcome) Violate(property, signature, format string, a ...interface{}) {
@@ -87,15 +89,29 @@ type Result struct {
 	SiteHits   map[string]int
 	Panics     []string
 	Stuck      bool
+	Halted     bool
+	Frontier   []string
 }
 
 var execMu sync.Mutex
 
 // Execute runs one execution of sc following prefix, then defaults.
 func Execute(t *testing.T, sc *Scenario, prefix []Choice) *Result {
+	return execute(t, sc, prefix, false)
+}
+
+// ExecuteHalt runs the prefix and halts at the next decision point (explicit-state search).
+func ExecuteHalt(t *testing.T, sc *Scenario, prefix []Choice) *Result {
+	return execute(t, sc, prefix, true)
+}
+
+func execute(t *testing.T, sc *Scenario, prefix []Choice, halt bool) *Result {
 	execMu.Lock()
 	defer execMu.Unlock()
 	metrics.UseNilMetrics = true
+	if os.Getenv("VERIF_LOG") != "" {
+		sarama.Logger = log.New(os.Stdout, "[sarama] ", 0)
+	}
 	res := &Result{Scenario: sc.Name}
 	done := make(chan struct{})
 	go func() {
@@ -113,6 +129,7 @@ func Execute(t *testing.T, sc *Scenario, prefix []Choice) *Result {
 		}()
 		synctest.Test(t, func(t *testing.T) {
 			c := newCtl(prefix)
+			c.HaltAfterPrefix = halt
 			sarama.VerifGateFn = c.Gate
 			sarama.VerifPickFn = nil
 			sarama.PanicHandler = func(v interface{}) {
@@ -135,6 +152,7 @@ func Execute(t *testing.T, sc *Scenario, prefix []Choice) *Result {
 			res.Choices, res.Points, res.Costs = c.Choices, c.Points, c.Costs
 			res.Fps, res.MaxEnabled, res.SiteHits = c.Fps, c.MaxEnabled, c.SiteHits
 			res.Panics, res.Stuck = c.Panics, c.Stuck
+			res.Halted, res.Frontier = c.Halted, c.Frontier
 			if c.EngineErr != "" {
 				res.EngineErr = c.EngineErr
 			}
@@ -168,6 +186,7 @@ type Task struct {
 	Split    int      `json:"split"`    // >0: execute the prefix run only and hand the children back as tasks
 	Twice    int      `json:"twice"`    // re-execute the first n runs and require identical observations
 	Deadline int64    `json:"deadline"` // unix seconds; 0 = none
+	Mode     string   `json:"mode"`     // "" = deviation-bounded DFS, "bfs" = expand one state
 }
 
 type Replay struct {
@@ -193,6 +212,10 @@ type Reply struct {
 	MaxEnabled int            `json:"max_enabled"`
 	Sample     *Replay        `json:"sample"`
 	Recycle    bool           `json:"recycle"`
+	Key        string         `json:"key"`
+	Frontier   []string       `json:"frontier"`
+	Halted     bool           `json:"halted"`
+	Path       []Choice       `json:"path"`
 }
 
 type workerState struct {
@@ -275,6 +298,36 @@ func (w *workerState) run(task Task) Reply {
 	sc, err := w.lookup(task.Scenario)
 	if err != nil {
 		rep.EngineErr = err.Error()
+		return rep
+	}
+	if task.Mode == "bfs" {
+		w.note(task.Scenario, task.Prefix)
+		r := ExecuteHalt(w.t, sc, task.Prefix)
+		if r.EngineErr != "" {
+			rep.EngineErr = fmt.Sprintf("%s\n  scenario=%s prefix=%v", r.EngineErr, task.Scenario, task.Prefix)
+			return rep
+		}
+		fold(&rep, map[uint64]struct{}{}, r)
+		if r.Leaked {
+			w.leaked++
+		}
+		rep.Halted, rep.Frontier, rep.Path = r.Halted, r.Frontier, r.Choices
+		if r.Outcome != nil {
+			rep.Key = r.Outcome.Key
+		}
+		if task.Twice > 0 {
+			r2 := ExecuteHalt(w.t, sc, task.Prefix)
+			rep.Rechecked++
+			if r2.Leaked {
+				w.leaked++
+			}
+			if r2.EngineErr != "" || fmt.Sprint(r2.Frontier) != fmt.Sprint(r.Frontier) || r2.Outcome == nil || r2.Outcome.Key != rep.Key {
+				rep.EngineErr = fmt.Sprintf("NONDETERMINISM (bfs): re-execution differs\n  scenario=%s prefix=%v\n  first=%v %s\n  second=%v %s", task.Scenario, task.Prefix, r.Frontier, rep.Key, r2.Frontier, r2.EngineErr)
+			}
+		}
+		if w.leaked > 400 {
+			rep.Recycle = true
+		}
 		return rep
 	}
 	fps := map[uint64]struct{}{}
@@ -431,6 +484,8 @@ type Explorer struct {
 	wseq       int
 	pmu        sync.Mutex
 	idle       []*worker
+	// LastPaths: for the most recent BFS, one history reaching each key (diagnostics)
+	LastPaths map[string][]Choice
 }
 
 func NewExplorer(c *ev.Check) *Explorer {
@@ -593,7 +648,9 @@ func (e *Explorer) Close() {
 	e.idle = nil
 }
 
-func (e *Explorer) runTasks(initial []Task, nw int) bool {
+func (e *Explorer) runTasks(initial []Task, nw int) bool { return e.runTasksCB(initial, nw, nil) }
+
+func (e *Explorer) runTasksCB(initial []Task, nw int, onReply func(t Task, r *Reply)) bool {
 	var mu sync.Mutex
 	cond := sync.NewCond(&mu)
 	queue := initial
@@ -681,6 +738,9 @@ func (e *Explorer) runTasks(initial []Task, nw int) bool {
 					}
 				} else {
 					e.merge(&rep)
+					if onReply != nil {
+						onReply(task, &rep)
+					}
 					if rep.EngineErr != "" {
 						e.Check.EngineError(rep.EngineErr)
 						failed = true
@@ -842,4 +902,69 @@ func ReplayFile(t *testing.T, path string) int {
 		code = 1
 	}
 	return code
+}
+
+// BFS is an explicit-state breadth-first search: a state is the history (choice list) reaching it,
+// successors are obtained by re-executing the history on a fresh instance plus one enabled entry,
+// the scenario's Outcome.Key is the canonical state key used for the visited set (prune=false keeps
+// every history: the differential run that validates the canonicalisation). The scenario judges
+// its invariants in every state. Returns the visited keys with the depth they were first seen at.
+func (e *Explorer) BFS(scenario string, maxDepth int, prune bool) (keys map[string]int, transitions int, exhaustive bool) {
+	keys = map[string]int{}
+	e.LastPaths = map[string][]Choice{}
+	var dl int64
+	if !e.Deadline.IsZero() {
+		dl = e.Deadline.Unix()
+	}
+	level := [][]Choice{nil}
+	exhaustive = true
+	t0 := time.Now()
+	for depth := 0; depth <= maxDepth && len(level) > 0; depth++ {
+		if !e.Deadline.IsZero() && time.Now().After(e.Deadline) {
+			exhaustive = false
+			break
+		}
+		tasks := make([]Task, 0, len(level))
+		for i := len(level) - 1; i >= 0; i-- {
+			tw := 0
+			if i%50 == 0 {
+				tw = 1
+			}
+			tasks = append(tasks, Task{Scenario: scenario, Prefix: level[i], Mode: "bfs", Twice: tw, Deadline: dl})
+		}
+		var mu sync.Mutex
+		var next [][]Choice
+		ok := e.runTasksCB(tasks, e.Workers, func(t Task, r *Reply) {
+			mu.Lock()
+			defer mu.Unlock()
+			transitions++
+			if r.EngineErr != "" {
+				return
+			}
+			if _, seen := keys[r.Key]; seen && prune {
+				return
+			}
+			if _, seen := keys[r.Key]; !seen {
+				keys[r.Key] = depth
+				e.LastPaths[r.Key] = r.Path
+			}
+			if depth == maxDepth {
+				return
+			}
+			for i, l := range r.Frontier {
+				next = append(next, append(append([]Choice{}, r.Path...), Choice{i, l}))
+			}
+		})
+		if !ok {
+			exhaustive = false
+			break
+		}
+		// deterministic order of the next level regardless of reply arrival order
+		sort.Slice(next, func(a, b int) bool { return fmt.Sprint(next[a]) < fmt.Sprint(next[b]) })
+		level = next
+	}
+	e.Scenarios = append(e.Scenarios, map[string]interface{}{"scenario": scenario, "search": "bfs", "prune": prune, "max_depth": maxDepth,
+		"states": len(keys), "transitions": transitions, "exhaustive": exhaustive, "wall_s": time.Since(t0).Seconds()})
+	fmt.Printf("  bfs %s: depth<=%d prune=%v: %d states, %d transitions, exhaustive=%v, %.1fs\n", scenario, maxDepth, prune, len(keys), transitions, exhaustive, time.Since(t0).Seconds())
+	return keys, transitions, exhaustive
 }
